@@ -461,7 +461,23 @@ def r7_range_expressions(ctx):
     ok = f"list(eval({v}, {{}}, {{}}))" in exp
     ctx.check(ok, f.qual + "#plain-expression", "a plain expression becomes list(eval(text)) in order" if ok else "a plain list expression is not returned as list(<evaluated text>)", where=f, node=f.node)
     comps = [val for s_, val in sites if isinstance(val, ast.ListComp)]
-    ok = len(comps) == 2 and all(len(c.generators) == 1 and not c.generators[0].ifs and dotted(c.generators[0].iter) == "values_array" and norm(c.elt) in (f"float({norm(c.generators[0].target)})", f"int({norm(c.generators[0].target)})") for c in comps)
+    from sa.astutil import local_defs as _ld
+
+    def _converter(fn_):
+        # float / int, or a local every definition of which is float / int (`converter = float` ... `converter = int`)
+        if not isinstance(fn_, ast.Name):
+            return False
+        if fn_.id in ("float", "int"):
+            return True
+        ds = [d for _s, d in _ld(f, fn_.id)]
+        ds = [d for d in ds if d is not None]
+        return bool(ds) and all(isinstance(d, ast.Name) and d.id in ("float", "int") for d in ds)
+
+    def _np_iter(it):
+        e = expand(f, it)
+        return isinstance(e, ast.Call) and call_name(e) == "eval" and len(e.args) > 2 and "numpy" in norm(expand(f, e.args[2]))
+
+    ok = 1 <= len(comps) <= 2 and all(len(c.generators) == 1 and not c.generators[0].ifs and _np_iter(c.generators[0].iter) and isinstance(c.elt, ast.Call) and len(c.elt.args) == 1 and not c.elt.keywords and norm(c.elt.args[0]) == norm(c.generators[0].target) and _converter(c.elt.func) for c in comps)
     ctx.check(ok, f.qual + "#numpy-order", "numpy results are converted element by element, in order, unfiltered" if ok else "numpy range results are filtered or reordered", where=f, node=comps[0] if comps else f.node)
     # every way out hands back one of those result sites unchanged
     rets = [r for r in returns_of(f) if r.value is not None]
